@@ -112,6 +112,7 @@ func runCOMMIT(c *Ctx) {
 			call ssa.CallInstruction
 		}
 		found := map[string]hit{}
+		kindsOf := map[string]map[string]bool{}
 		for _, ci := range CallsOf(fn) {
 			ok, name := fallible(c, ci)
 			if !ok {
@@ -142,6 +143,24 @@ func runCOMMIT(c *Ctx) {
 			if _, dup := found[name]; !dup {
 				found[name] = hit{*first, ci}
 			}
+			// what may already have been changed when this call fails (part of the finding's identity: a
+			// reordering that lets a *further* kind of change precede the call is a different finding)
+			if kindsOf[name] == nil {
+				kindsOf[name] = map[string]bool{}
+			}
+			for i := range effs {
+				e := effs[i]
+				if e.Instr == ssa.Instruction(ci) {
+					if !(ir.InstrReaches(ci, ci) && inCycle(ci.Block())) {
+						continue
+					}
+				} else if !ir.InstrReaches(e.Instr, ci) {
+					continue
+				}
+				for _, k := range e.Kinds {
+					kindsOf[name][k] = true
+				}
+			}
 		}
 		var names []string
 		for n := range found {
@@ -150,7 +169,12 @@ func runCOMMIT(c *Ctx) {
 		sort.Strings(names)
 		for _, n := range names {
 			h := found[n]
-			c.Violation(fn, P.InstrPos(h.call), "effect before fallible "+n,
+			var ks []string
+			for k := range kindsOf[n] {
+				ks = append(ks, strings.TrimPrefix(k, "Mast."))
+			}
+			sort.Strings(ks)
+			c.Violation(fn, P.InstrPos(h.call), "effect before fallible "+n+" {"+strings.Join(ks, ",")+"}",
 				fmt.Sprintf("%s can fail after the tree was already changed (%s at %s): on that error the caller sees a failed operation but a modified tree (contents/size/height no longer those before the call)",
 					n, h.eff.Desc, P.InstrPos(h.eff.Instr)),
 				"earliest effect: "+h.eff.Desc+" at "+P.InstrPos(h.eff.Instr))
